@@ -2,6 +2,8 @@ package jet
 
 import (
 	"bytes"
+	"io/ioutil"
+	"reflect"
 	"sync"
 )
 
@@ -91,6 +93,53 @@ func c11Do(set *Set, l *InMemLoader, op string) {
 	}
 }
 
+// c11Snapshot: content handed out by Open is a snapshot: an edit of the same path made
+// while the reader is still being read (here: between Open and ReadAll) must not change
+// what the reader yields. This is the sequential witness of the race "Set rewrites bytes a
+// concurrent reader is reading".
+func c11Snapshot(l *InMemLoader, next string) bool {
+	l.Set("/snap.jet", "0123456789")
+	f, err := l.Open("/snap.jet")
+	if err != nil {
+		return false
+	}
+	l.Set("/snap.jet", next)
+	b, _ := ioutil.ReadAll(f)
+	return string(b) == "0123456789"
+}
+
+// c11FreshStress (native replay only): first-time field resolution on struct types the
+// process has never seen, from several goroutines at once, under the race detector.
+func c11FreshStress(set *Set) {
+	t, err := set.Parse("/fresh.jet", `{{ .Promoted }}{{ .H }}{{ .Promoted }}`)
+	if err != nil {
+		return
+	}
+	emb := reflect.TypeOf(&C11Emb{})
+	for k := 0; k < 40; k++ {
+		typ := reflect.StructOf([]reflect.StructField{
+			{Name: "C11Emb", Type: emb, Anonymous: true},
+			{Name: "H", Type: reflect.TypeOf(0)},
+			{Name: "Pad" + ndItoa(k), Type: reflect.TypeOf(0)},
+		})
+		v := reflect.New(typ).Elem()
+		v.Field(0).Set(reflect.ValueOf(&C11Emb{1}))
+		data := v.Interface()
+		var wg sync.WaitGroup
+		for g := 0; g < 6; g++ {
+			wg.Add(1)
+			go func() {
+				defer wg.Done()
+				for r := 0; r < 3; r++ {
+					var b bytes.Buffer
+					t.Execute(&b, nil, data)
+				}
+			}()
+		}
+		wg.Wait()
+	}
+}
+
 // H_C11_lockDiscipline: for every operation (symbolic choice of two in sequence) on a Set
 // with globals and an in-memory loader: every access to the three guarded maps happens
 // with the guard held (write-locked for updates), and no lock is left held afterwards.
@@ -113,7 +162,12 @@ func H_C11_lockDiscipline() {
 		c11Do(set, l, c11Ops[b])
 		vfAssert(vfLocksHeld() == 0, "no lock is left held")
 		vfReach("done")
+		vfAssert(c11Snapshot(l, "abc") && c11Snapshot(l, "abcdefghijklmnop"), "content handed out by Open is not rewritten by a later Set")
 		return
+	}
+	vfAssert(c11Snapshot(l, "abc") && c11Snapshot(l, "abcdefghijklmnop"), "content handed out by Open is not rewritten by a later Set")
+	if c11Ops[a] == "exec:field3" || c11Ops[b] == "exec:field3" || c11Ops[a] == "exec:field3b" || c11Ops[b] == "exec:field3b" {
+		c11FreshStress(set)
 	}
 	// native replay: the two operations run concurrently, many times, under -race
 	var wg sync.WaitGroup
